@@ -175,7 +175,9 @@ def build(C, opt):
 
     poison = make_poison(fault)
 
-    u = PINN(mlp=Net(jnp.array([W0, W0] if partial else [W0])), slice_solution=jnp.s_[:],
+    # bf16: the network leaf is stored in bfloat16 (legal; the small integers of the tagged arithmetic are exact in it)
+    wdt = jnp.bfloat16 if opt.get("bf16") else None
+    u = PINN(mlp=Net(jnp.array([W0, W0] if partial else [W0], dtype=wdt)), slice_solution=jnp.s_[:],
              eq_type={"ode": "ODE", "statio": "statio_PDE", "nonstatio": "nonstatio_PDE"}[lkind], input_transform=lambda i, p: i,
              output_transform=lambda i, o, p: o)
 
@@ -223,7 +225,7 @@ def build(C, opt):
     v0 = C.get("v0", 0)
     params = jax.tree.map(lambda x: x, params)
     params = eqx.tree_at(lambda p: (p.nn_params.w, p.eq_params["theta"]), params,
-                         (jnp.array([W0 - v0] * (2 if partial else 1)), jnp.array([TH0 - v0] * 2 if partial else TH0 - v0)))
+                         (jnp.array([W0 - v0] * (2 if partial else 1), dtype=wdt), jnp.array([TH0 - v0] * 2 if partial else TH0 - v0)))
     import warnings
     warnings.simplefilter("ignore")
     if lkind == "ode":
@@ -370,7 +372,7 @@ def build(C, opt):
 
     def run(n_iter, data=data, params=params, opt_state=None, param_data=param_data, obs_data=obs_data, validation=validation):
         return jinns.solve(n_iter=n_iter, init_params=params, data=data, loss=loss, optimizer=optimizer, opt_state=opt_state,
-                           tracked_params=tp, param_data=param_data, obs_data=obs_data, validation=validation, verbose=False,
+                           tracked_params=tp, param_data=param_data, obs_data=obs_data, validation=validation, verbose=bool(opt.get("verbose")),
                            obs_batch_sharding=shard)
 
     return dict(run=run, data=data, param_data=param_data, obs_data=obs_data, params=params, val_ref=val_ref, npts=npts, b=b, B=B, bo=bo,
